@@ -459,10 +459,13 @@ def Session.prepTxHandshake (s : Session) (gattMtu : Option Nat) (now : Nat) : E
              handshakeHdr.encode ++ [s.version, s.mtu % 256, s.mtu / 256 % 256, s.windowSize])
   else .ok (s, [])
 
+/-- the header every outgoing data / ack segment starts from: next sequence number + pending ACK -/
+def Session.baseHdr (s : Session) : Hdr :=
+  { seqNum := s.send.nextSeq, ack := s.recv.pendingAck.isSome, ackNum := s.recv.pendingAck.getD 0 }
+
 /-- header + payload of the next segment of `prep_tx_data` (`data = []`: a stand-alone ACK) -/
 def Session.buildSegment (s : Session) (data : List Nat) (offset : Nat) : Except Fail (Hdr × List Nat) :=
-  let h0 : Hdr := { seqNum := s.send.nextSeq,
-                    ack := s.recv.pendingAck.isSome, ackNum := s.recv.pendingAck.getD 0 }
+  let h0 : Hdr := s.baseHdr
   if !data.isEmpty then
     let h1 : Hdr := if offset = 0 then { h0 with beg := true, msgLen := data.length % 65536 }
                     else { h0 with cont := true }
